@@ -10,7 +10,11 @@ S-expression reader on ledger's real output.
 Oracle: written from the property text - xml.etree parses the document and yields the register's
 dates/codes/payees/notes/accounts/commodities/quantities; a conventional csv reader (RFC dialect or
 backslash dialect) recovers the register's fields from every row; the emacs output is one balanced
-S-expression whose strings are the register's."""
+S-expression whose strings are the register's.  Payee overrides are part of the input space:
+`; Payee: X` on a posting (on its line or the next), directly under the transaction header (inherited
+by every posting), or both; per posting, the payee a reader recovers (xml: the posting's <payee> if
+present, else the transaction's; csv: the payee column; emacs: the transaction's payee field) must be
+the register's %(payee); likewise the inherited value of a `Ref:` tag in the xml metadata."""
 import csv, io, os, re
 import xml.etree.ElementTree as ET
 from fractions import Fraction as F
@@ -20,10 +24,10 @@ META = dict(
     id='C18',
     level='proof',
     technique='Coq proof (decode . encode = id for the emacs, csv and xml escaping functions against reader specifications; token/parenthesis structure of the emacs writer; element structure of the xml writer) + differential correspondence of the extracted writers against ledger + python csv/xml.etree/S-expression oracles',
-    level_text='Theorems in coq/Properties/Properties_C18.v state for ALL byte strings that the Emacs-Lisp reader recovers every string escape_string writes, that the whole emacs output lexes to the expected balanced token list and reads back as the tree (file line (hi lo 0) code payee (line account amount state [cost] [note])...); that XML character-data decoding inverts boost\'s entity encoding, the encoded text has no raw < and no & outside the six references, and a tag scanner finds in what the modelled property-tree writer prints exactly the elements of the tree, properly nested (for the transactions, accounts and commodities sections ledger builds, whatever the journal texts are); that an RFC 4180 reader recovers every row written with quoted_rfc; that the DEFAULT csv format (regenerated from report.h on every run) is recovered by the backslash-escape reader for ALL field contents (quoted() escapes both the double quote and the backslash), and by the RFC 4180 reader when no field holds a double quote or a backslash (the RFC reader is refuted by witnesses for each of the two characters - a statement about that reader; the property asks for one conventional reader). The model is tied to the code by comparing, byte for byte, ledger\'s csv (default and generated formats), emacs and xml (transactions, account tree, commodities) output with the extracted model on generated journals, and its reader specifications are cross-checked against python csv, expat and an S-expression reader on ledger\'s real output.',
+    level_text='Theorems in coq/Properties/Properties_C18.v state for ALL byte strings that the Emacs-Lisp reader recovers every string escape_string writes, that the whole emacs output lexes to the expected balanced token list and reads back as the tree (file line (hi lo 0) code payee (line account amount state [cost] [note])...); that XML character-data decoding inverts boost\'s entity encoding, the encoded text has no raw < and no & outside the six references, and a tag scanner finds in what the modelled property-tree writer prints exactly the elements of the tree, properly nested (for the transactions, accounts and commodities sections ledger builds, whatever the journal texts are); that an RFC 4180 reader recovers every row written with quoted_rfc; that the DEFAULT csv format (regenerated from report.h on every run) is recovered by the backslash-escape reader for ALL field contents (quoted() escapes both the double quote and the backslash), and by the RFC 4180 reader when no field holds a double quote or a backslash (the RFC reader is refuted by witnesses for each of the two characters - a statement about that reader; the property asks for one conventional reader). Payee overrides (`; Payee: X` tags) are modelled as the code resolves them (post_t::payee(): the payee fixed when the posting line is read, else the inherited tag, else the header): the csv payee cell is proved to be that value, the payee an xml reader recovers (posting <payee> else transaction <payee>) is proved equal to it unless a later note line re-tags a posting whose payee was already fixed (refuted by witness, finding F116), and the emacs payee, one per transaction, only when no tag applies (refuted by witness, finding F115). The model is tied to the code by comparing, byte for byte, ledger\'s csv (default and generated formats), emacs and xml (transactions, account tree, commodities) output with the extracted model on generated journals, and its reader specifications are cross-checked against python csv, expat and an S-expression reader on ledger\'s real output.',
     level_note='Trusted: Coq kernel; extraction + OCaml driver and this harness for the correspondence. boost::property_tree\'s XML writer and entity encoder are modelled (Model/Escape.v write_el, xml_encode) and validated by the correspondence, not verified. Amount texts (quantity, commodity, annotated amount) are taken from the register report, as the property text does. The running <total>, <account-amount>, <account-total> subtrees and the id/ref addresses of the xml output are not compared.',
     design_ref='DESIGN.md section 7 C18, section 9 F10 (repaired by /repo 3212d62)',
-    assumptions=['free-text fields survive journal parsing unchanged (see EXCLUSIONS in harness/props/c18.py): no tab/newline inside a field, no double space, a payee does not start with `(` unless a code precedes it nor with `*`/`!` on an uncleared transaction, a code has no `)`, an account name is not wrapped in ()/[]/<>, has no empty `:` component and does not start with `;` `*` `!`, a note has no token starting or ending with `:` (metadata) and no `[` before a digit or `=` (date override)',
+    assumptions=['free-text fields survive journal parsing unchanged (see EXCLUSIONS in harness/props/c18.py): no tab/newline inside a field, no double space, a payee does not start with `(` unless a code precedes it nor with `*`/`!` on an uncleared transaction, a code has no `)`, an account name is not wrapped in ()/[]/<>, has no empty `:` component and does not start with `;` `*` `!`, a free-text note has no token starting or ending with `:` and no `[` before a digit or `=` (date override); metadata is generated in dedicated note lines (`Key: value`, `:tag:tag:`, `Payee: X`) with string values only (no `Key:: expr`), and no bare `:Payee:` tag',
                  'quoted commodity symbols contain no double quote and no backslash (commodity scanner escapes)',
                  'control characters (outside the property\'s quantifier) are not generated: boost writes them raw, which is not well-formed XML 1.0'],
 )
@@ -33,7 +37,7 @@ EXCLUSIONS = {
     'payee': 'first character not `(` unless a code was written (textual.cc:1886 takes it for a code, a lone `(` loses the payee); not `*`/`!` when the transaction has no state flag (textual.cc:1871 reads it as the flag)',
     'code': 'no `)` (the code ends at the first one)',
     'account': 'first character not `;` (comment), `*`, `!` (state flag); not `(..)`, `[..]`, `<..>` as a whole (virtual / deferred posting syntax); no empty component (`::`, leading or trailing `:`)',
-    'note': 'no whitespace-separated token that starts or ends with `:` (item.cc:188-219 turns it into tags / metadata; `key:: expr` is evaluated); no `[` directly before a digit or `=` (item.cc:157-176 reads a date)',
+    'note': 'free-text notes: no whitespace-separated token that starts or ends with `:` (item.cc:188-219 turns it into tags / metadata; those are generated separately, as whole lines; `key:: expr` is evaluated and not generated); no `[` directly before a digit or `=` (item.cc:157-176 reads a date)',
     'commodity': 'quoted symbols without `"` and `\\`',
 }
 
@@ -149,6 +153,77 @@ def note_ok(t):
     return True
 
 
+PAYEE_KEYS = ['Payee', 'Payee', 'Payee', 'payee', 'PAYEE']
+OTHER_KEYS = ['Ref', 'zeta', 'Alpha', 'K"<&\'', 'é-key', 'a:b', 'ref', '_k', '^Z']
+TAG_NAMES = ['tA', 'tB', 'x<&>"', 'ü', 'Zed', "q'", '_u', '`t', 'ta']
+
+
+def value_ok(t):
+    return basic_ok(t)
+
+
+def gen_meta_line(rng, kind):
+    """one note line that item_t::parse_tags turns into metadata -> (text after `;`, entries);
+    an entry is (key, value or None for a bare tag), in the order parse_tags sets them"""
+    lead = ' ' if rng.random() < 0.8 else ''
+    if kind == 'payee':
+        v = gen_field(rng, value_ok)
+        k = rng.choice(PAYEE_KEYS)
+        return lead + k + ': ' + v, [(k, v)]
+    if kind == 'key':
+        k = rng.choice(OTHER_KEYS)
+        if rng.random() < 0.12:
+            return lead + k + ':', [(k, None)]            # no value: stored like a bare tag
+        v = gen_field(rng, value_ok)
+        return lead + k + ': ' + v, [(k, v)]
+    names = rng.sample(TAG_NAMES, rng.choice([1, 2, 3]))
+    pre = (word(rng) + ' ') if rng.random() < 0.3 else ''
+    return lead + pre + ':' + ':'.join(names) + ':', [(n, None) for n in names]
+
+
+def gen_notes(rng, item, p_note, p_second, payee_tag=False, dup_payee=False):
+    """note lines of a transaction or posting: item.notes (texts), item.metas (entries per line),
+    item.inline_note (first line written on the item's own line)"""
+    lines = []
+    if rng.random() < p_note:
+        lines.append(((' ' if rng.random() < 0.7 else '') + gen_field(rng, note_ok), []))
+        if rng.random() < p_second:
+            lines.append((' ' + gen_field(rng, note_ok), []))
+    if rng.random() < 0.15:
+        lines.append(gen_meta_line(rng, 'key'))
+    if rng.random() < 0.12:
+        lines.append(gen_meta_line(rng, 'tags'))
+    if payee_tag:
+        lines.append(gen_meta_line(rng, 'payee'))
+        if dup_payee:
+            lines.append(gen_meta_line(rng, 'payee'))
+    rng.shuffle(lines)
+    item.notes = [t for t, _ in lines]
+    item.metas = [m for _, m in lines]
+    item.inline_note = bool(lines) and rng.random() < 0.6
+
+
+def meta_entries(item, which):
+    """entries for the model: which = 'all' | 'inline' | 'later'; overwrite_existing is false only
+    for the note on a transaction's header line (textual.cc:1930 vs 1956, 1802)"""
+    out = []
+    for i, ents in enumerate(item.metas):
+        inline = item.inline_note and i == 0
+        if which == 'inline' and not inline:
+            continue
+        if which == 'later' and inline:
+            continue
+        ow = not (inline and isinstance(item, Xact))
+        for k, v in ents:
+            out.append([ow, hexs(k), opt(v)])
+    return out
+
+
+def has_payee(item, which):
+    return any(k.lower() == 'payee' and v for i, ents in enumerate(item.metas) for k, v in ents
+               if which == 'all' or ((item.inline_note and i == 0) == (which == 'inline')))
+
+
 def gen_field(rng, ok, tries=50):
     for _ in range(tries):
         t = gen_text(rng)
@@ -212,13 +287,8 @@ def gen_journal(rng, idx):
         # a code may be empty or blank: `()` prints <code/>, `( )` takes boost's only-spaces branch (&#32;)
         x.code = None if r < 0.45 else ('' if r < 0.50 else rng.choice([' ', '  ', '   ']) if r < 0.54 else gen_field(rng, code_ok))
         x.payee = gen_field(rng, lambda t: payee_ok(t, x.code is not None, x.state))
-        x.notes = []        # note lines of the transaction ('' = none)
-        if rng.random() < 0.5:
-            lead = ' ' if rng.random() < 0.7 else ''
-            x.notes.append(lead + gen_field(rng, note_ok))
-            if rng.random() < 0.25:
-                x.notes.append(' ' + gen_field(rng, note_ok))
-        x.inline_note = bool(x.notes) and rng.random() < 0.7   # first note line on the payee line
+        xact_payee_tag = rng.random() < 0.22
+        gen_notes(rng, x, 0.5, 0.25, payee_tag=xact_payee_tag, dup_payee=xact_payee_tag and rng.random() < 0.25)
         comm = rng.choice(comms)
         dec = decs[comm[0]]
         n = rng.choice([2, 2, 3])
@@ -236,12 +306,9 @@ def gen_journal(rng, idx):
             p.virtual = 2 if rng.random() < 0.1 else 0
             p.comm, p.cents, p.dec = comm, amounts[pi], dec
             p.cost = None
-            p.notes = []
-            if rng.random() < 0.35:
-                p.notes.append((' ' if rng.random() < 0.7 else '') + gen_field(rng, note_ok))
-                if rng.random() < 0.3:
-                    p.notes.append(' ' + gen_field(rng, note_ok))
-            p.inline_note = bool(p.notes) and rng.random() < 0.7
+            # a posting-level Payee tag: more often when the transaction has one too, so that the
+            # inline / next-line / inherited combinations all occur
+            gen_notes(rng, p, 0.35, 0.3, payee_tag=rng.random() < (0.45 if xact_payee_tag else 0.15))
             x.posts.append(p)
         others = [c for c in comms if c is not comm and c[0] is not None]
         if cost_shape and others:
@@ -260,7 +327,7 @@ def gen_journal(rng, idx):
             p.account = gen_field(rng, account_ok)
             p.state, p.virtual = 0, 1
             p.comm, p.cents, p.dec, p.cost = comm, rng.choice([100, 3, -42]), dec, None
-            p.notes, p.inline_note = [], False
+            p.notes, p.metas, p.inline_note = [], [], False
             x.posts.append(p)
         xs.append(x)
     return xs, qword
@@ -316,10 +383,10 @@ def render(xs):
     return '\n'.join(lines) + '\n'
 
 
-REG_FIELDS = ['date', 'code', 'payee', 'account', 'display_account', 'note',
+REG_FIELDS = ['date', 'code', 'payee', 'xact.payee', 'account', 'display_account', 'note',
               'commodity(scrub(display_amount))', 'quantity(scrub(display_amount))', 'amount',
               'has_cost', 'cost', 'commodity(cost)', 'quantity(cost)',
-              'cleared ? "*" : (pending ? "!" : "")', 'virtual', 'join(note | xact.note)']
+              'cleared ? "*" : (pending ? "!" : "")', 'virtual', 'join(note | xact.note)', 'tag("ref")']
 REG_FORMAT = SEP.join('%%(%s)' % f for f in REG_FIELDS) + ROWEND + '\\n'
 
 CSV_EXPR = {'date': 'date', 'code': 'code', 'payee': 'payee', 'account': 'display_account',
@@ -547,7 +614,8 @@ def build_case(jid, path, fmt, xs, shown, rows):
                 csym = r['commodity(cost)']
                 cost = [amt_sx(r['cost'], flags_of(csym), csym, r['quantity(cost)'])]
             note = '\n'.join(p.notes) if p.notes else None
-            ps.append([p.line, p.virtual, p.state, hexs(p.account), amount, cost, opt(note)])
+            ps.append([p.line, p.virtual, p.state, hexs(p.account), amount, cost, opt(note),
+                       meta_entries(p, 'inline'), meta_entries(p, 'later')])
             annot = []
             if p.cost:
                 # the unit price and the transaction date annotate the commodity of a costed amount
@@ -556,7 +624,7 @@ def build_case(jid, path, fmt, xs, shown, rows):
             comms.append([hexs(flags_of(sym)), hexs(sym), annot])
         xnote = '\n'.join(x.notes) if x.notes else None
         y, m, d = x.ymd
-        xacts.append([x.line, y, m, d, x.state, opt(x.code), hexs(x.payee), opt(xnote), ps])
+        xacts.append([x.line, y, m, d, x.state, opt(x.code), hexs(x.payee), opt(xnote), meta_entries(x, 'all'), ps])
     visited = {p.account for _, posts in shown for p in posts}
     for x in xs:
         for p in x.posts:
@@ -670,7 +738,7 @@ def check_journal_fields(rec, res):
             pnote = '\n'.join(p.notes)
             want.append(dict(payee=x.payee, code=x.code or '', account=p.account, note=pnote + xnote,
                              date='%04d/%02d/%02d' % x.ymd))
-    got = None if rows is None else [dict(payee=r['payee'], code=r['code'], account=r['account'], note=r['note'], date=r['date']) for r in rows]
+    got = None if rows is None else [dict(payee=r['xact.payee'], code=r['code'], account=r['account'], note=r['note'], date=r['date']) for r in rows]
     if got != want:
         res.disagreements.append(dict(name='C18/journal-fields', case=case, impl=str(got)[:1500], model=str(want)[:1500]))
         return None
@@ -706,6 +774,11 @@ def classify_text(s):
     return k
 
 
+def stable_output(out):
+    """what a replay compares: the command output without the per-run account addresses"""
+    return re.sub(r'\b(id|ref)="[0-9a-f]{8,}"', r'\1="@"', text_of(out))[:6000]
+
+
 def oracle(rec, rows, res):
     """the property text evaluated on ledger's output"""
     case = case_of(rec)
@@ -713,7 +786,7 @@ def oracle(rec, rows, res):
 
     def viol(key, desc, observed, required):
         cmd = 'xml' if key.startswith('xml') else 'emacs' if key.startswith('emacs') else 'csv' if key.startswith('csv-rfc') else 'csvd'
-        c = dict(case, command=cmd, output=text_of(outs[cmd][1])[:4000])
+        c = dict(case, command=cmd, output=stable_output(outs[cmd][1]))
         res.violations.append(dict(key=key, desc=desc, case=c, observed=str(observed)[:800], required=str(required)[:800],
                                    journal_id=rec['id']))
 
@@ -730,7 +803,16 @@ def oracle(rec, rows, res):
             for p in t.findall('./postings/posting'):
                 sym = p.find('./post-amount/amount/commodity/symbol')
                 pn = p.find('note')
-                got.append(dict(date=t.findtext('date') or '', code=t.findtext('code') or '', payee=t.findtext('payee') or '',
+                # the payee a reader recovers for a posting: its own <payee> if present, else the transaction's
+                pp = p.find('payee')
+                ref = ''
+                for holder in (p, t):        # the posting's own valued tag, else the transaction's
+                    vals = [v.findtext('string') or '' for v in holder.findall('./metadata/value') if (v.get('key') or '').lower() == 'ref']
+                    if vals:
+                        ref = vals[0]
+                        break
+                got.append(dict(ref=ref, date=t.findtext('date') or '', code=t.findtext('code') or '',
+                                payee=(pp.text or '') if pp is not None else (t.findtext('payee') or ''),
                                 account=p.findtext('./account/name') or '',
                                 commodity=(sym.text or '') if sym is not None else '',
                                 quantity=p.findtext('./post-amount/amount/quantity') or '',
@@ -741,17 +823,31 @@ def oracle(rec, rows, res):
             for p in posts:
                 r = rows[k]
                 k += 1
-                want.append(dict(date=r['date'], code=r['code'], payee=r['payee'], account=r['account'],
+                want.append(dict(ref=r['tag("ref")'], date=r['date'], code=r['code'], payee=r['payee'], account=r['account'],
                                  commodity=r['commodity(scrub(display_amount))'], quantity=r['quantity(scrub(display_amount))'],
                                  xnote='\n'.join(x.notes), pnote='\n'.join(p.notes)))
-        if got != want:
-            bad = 'row-count'
-            for g, w in zip(got, want):
-                d = [f for f in w if g[f] != w[f]]
-                if d:
-                    bad = d[0]
-                    break
-            viol('xml:%s-differs' % bad, 'a value recovered from the xml output differs from the register', got, want)
+        if len(got) != len(want):
+            viol('xml:row-count-differs', 'the xml output has %d postings, the register %d' % (len(got), len(want)), got, want)
+        else:
+            seen = set()
+            k = 0
+            for x, posts in rec['shown']:
+                for p in posts:
+                    g, w = got[k], want[k]
+                    k += 1
+                    d = [f for f in w if g[f] != w[f]]
+                    if not d:
+                        continue
+                    key = 'xml:%s-differs' % d[0]
+                    desc = 'a value recovered from the xml output differs from the register'
+                    if d == ['payee'] and has_payee(p, 'later') and (has_payee(p, 'inline') or has_payee(x, 'all')):
+                        # the payee was fixed when the posting LINE was read; a Payee tag on a later line
+                        # changes payee_from_tag() (xml) but not post_t::payee() (register, csv)
+                        key = 'xml:payee-differs:next-line-tag-after-parse-time-payee'
+                        desc = 'posting <payee> shows the Payee tag of a later note line, the register the payee fixed when the posting line was read'
+                    if key not in seen:
+                        seen.add(key)
+                        viol(key, desc, g, w)
         names = {a.findtext('fullname') or '' for a in root.iter('account') if a.find('fullname') is not None}
         for r in rows:
             if r['account'] not in names:
@@ -834,25 +930,35 @@ def oracle(rec, rows, res):
                     got.append(dict(date='%04d/%02d/%02d' % (y, m, d), code=code, payee=xf[4][1], account=pf[1][1],
                                     amount=pf[2][1], state=state, extra=extra, line=pf[0][1], xline=xf[1][1], file=xf[0][1]))
             want = []
+            header_payees = []
             k = 0
             for x, posts in rec['shown']:
                 for p in posts:
                     r = rows[k]
                     k += 1
+                    header_payees.append(r['xact.payee'])
                     extra = ([r['cost']] if r['has_cost'] == 'true' else []) + (['\n'.join(p.notes)] if p.notes else [])
                     want.append(dict(date=r['date'], code=r['code'], payee=r['payee'], account=r['account'], amount=r['amount'],
                                      state=r['cleared ? "*" : (pending ? "!" : "")'], extra=extra, line=str(p.line), xline=str(x.line),
                                      file=rec['path']))
             if not ok:
                 viol('emacs:shape', 'emacs transaction / posting list has an unexpected shape', etext[:600], 'lists')
-            elif got != want:
-                bad = 'row-count'
-                for g, w in zip(got, want):
+            elif len(got) != len(want):
+                viol('emacs:row-count-differs', 'the emacs output has %d postings, the register %d' % (len(got), len(want)), got, want)
+            else:
+                seen = set()
+                for g, w, hp in zip(got, want, header_payees):
                     d = [f for f in w if g[f] != w[f]]
-                    if d:
-                        bad = d[0]
-                        break
-                viol('emacs:%s-differs' % bad, 'a value recovered from the emacs output differs from the register', got, want)
+                    if not d:
+                        continue
+                    key = 'emacs:%s-differs' % d[0]
+                    desc = 'a value recovered from the emacs output differs from the register'
+                    if d == ['payee'] and g['payee'] == hp and w['payee'] != hp:
+                        key = 'emacs:payee-differs:payee-tag-not-shown'
+                        desc = 'the emacs output carries one payee per transaction, the header text; the register shows the Payee tag that overrides it for this posting'
+                    if key not in seen:
+                        seen.add(key)
+                        viol(key, desc, g, w)
 
 
 def run(ctx, n_override=None):
@@ -931,6 +1037,16 @@ def run(ctx, n_override=None):
         res.count('query' if rec['query'] else 'no-query')
         res.count('csv-format:' + rec['fkind'])
         res.count('postings', sum(len(ps) for _, ps in rec['shown']))
+        if any(has_payee(x, 'all') for x, _ in rec['shown']):
+            res.count('journal-with:transaction-payee-tag')
+        if any(has_payee(p, 'inline') for _, ps in rec['shown'] for p in ps):
+            res.count('journal-with:posting-payee-tag-inline')
+        if any(has_payee(p, 'later') for _, ps in rec['shown'] for p in ps):
+            res.count('journal-with:posting-payee-tag-next-line')
+        if any(has_payee(p, 'later') and (has_payee(p, 'inline') or has_payee(x, 'all')) for x, ps in rec['shown'] for p in ps):
+            res.count('journal-with:payee-tag-both-levels')
+        if any(m for x, ps in rec['shown'] for it in [x] + ps for m in it.metas):
+            res.count('journal-with:metadata')
         if not rec['shown']:
             res.count('empty-report')
         if any(x.code is not None and x.code.strip(' ') == '' for x, _ in rec['shown']):
@@ -1024,6 +1140,6 @@ def replay(ctx, obj):
         print('python csv, RFC 4180 dialect:  %r' % (csv_rows(text, 'rfc'),))
         print('python csv, backslash dialect: %r' % (csv_rows(text, 'bs'),))
     print('required: %s' % obj.get('required'))
-    if text_of(out)[:4000] == case.get('output'):
+    if stable_output(out) == case.get('output'):
         res.violations.append(dict(key=obj.get('key', ''), desc=obj.get('desc', '')))
     return res
